@@ -876,6 +876,60 @@ pub fn gen_instance(rng: &mut Rng, p: &Profile) -> Inst {
         }
     }
     let (shunt_min, shunt_dh) = if p.non_transitive { (*rng.pick(&[1200u64, 1800, 2400]), 0) } else { *rng.pick(&[(0u64, 0u64), (0, 0), (0, 300), (0, 600), (300, 300), (600, 600), (600, 0)]) };
+    // two maintenance slots at different locations, the second one starting exactly when a vehicle
+    // coming from the first one can be there: dead-head duration plus dead-head shunting on BOTH
+    // sides (a maintenance slot is not a depot), or one shunting too early (C01 / C17)
+    if maint.len() >= 2 && far_slot.is_none() && nlocs > 1 && shunt_dh > 0 && !p.non_transitive && rng.chance(35) {
+        let l0 = maint[0].loc;
+        let l1 = if maint[1].loc != l0 { maint[1].loc } else { (l0 + 1) % nlocs };
+        let (r0, r1) = (
+            dh_idx.iter().position(|&x| x == l0).unwrap_or(l0),
+            dh_idx.iter().position(|&x| x == l1).unwrap_or(l1),
+        );
+        if dh_dur[r0][r1] < GRID * 100 {
+            let len = maint[1].end - maint[1].start;
+            maint[1].loc = l1;
+            maint[1].start = maint[0].end + dh_dur[r0][r1] + if rng.chance(50) { shunt_dh } else { 2 * shunt_dh };
+            maint[1].end = maint[1].start + len;
+        }
+    }
+    // a maintenance slot that is the ONLY connection between two trips of one type: the trip ending
+    // at a reaches the slot at l, the slot reaches the trip starting at b, but the direct dead-head
+    // a -> b takes days (dead-head matrices need not be metric). Taking the slot out of a tour
+    // [.., trip, slot, trip, ..] must be refused (C10 / C12 / C01).
+    if !maint.is_empty() && far_slot.is_none() && nlocs >= 3 && !p.non_transitive && rng.chance(20) {
+        let mut ends = vec![];
+        let mut starts = vec![];
+        for d in &departures {
+            let r = &routes[d.route];
+            for g in &d.segs {
+                let rs = &r.segs[g.rseg];
+                ends.push((g.departure + rs.duration, rs.dest, r.vt));
+                starts.push((g.departure, rs.origin, r.vt));
+            }
+        }
+        let mut pairs = vec![];
+        for e in &ends {
+            for s in &starts {
+                if e.2 == s.2 && e.1 != s.1 && s.0 >= e.0 + 4 * shunt_dh + GRID {
+                    pairs.push((*e, *s));
+                }
+            }
+        }
+        if !pairs.is_empty() {
+            let (e, s) = *rng.pick(&pairs);
+            let l = (0..nlocs).find(|x| *x != e.1 && *x != s.1).unwrap();
+            let row = |loc: usize| dh_idx.iter().position(|&x| x == loc).unwrap_or(loc);
+            let (ra, rb, rl) = (row(e.1), row(s.1), row(l));
+            dh_dur[ra][rl] = 0;
+            dh_dur[rl][rb] = 0;
+            dh_dur[ra][rb] = GRID * 1000;
+            let k = maint.len() - 1;
+            maint[k].loc = l;
+            maint[k].start = e.0 + 2 * shunt_dh;
+            maint[k].end = s.0 - 2 * shunt_dh;
+        }
+    }
     let max_dist = if maint.is_empty() && rng.chance(50) {
         0
     } else if !maint.is_empty() && rng.chance(8) {
